@@ -67,7 +67,10 @@ def unit_fn(unit):
     n_a, n_b, n_c = unit['nodes']
     with warnings.catch_warnings():
         warnings.simplefilter('ignore')
-        for (pname, prog), bp in itertools.product(zoo.programs(nt, st, unit['tier']), range(unit['nbase'])):
+        for (pname, prog), bp, nominal in itertools.product(zoo.programs(nt, st, unit['tier']), range(unit['nbase']),
+                                                            (1.0, 3.0)):
+            # nominal: the solver object's own `dt` as a multiple of the step actually taken (a step may be shorter
+            # than the nominal dt: clipped last step, adaptive stepping); the step must depend on t1 - t0 only
             t0v = [0.2, 0.7][bp]
             ybase = zoo.y0_for(prog, 2, seed=bp)[bp]
             c = refs.Coeffs(prog, t0v, ybase)
@@ -79,7 +82,7 @@ def unit_fn(unit):
                 dW, U, A, w = increments(m, uses_U, uses_A, n_a, n_b, n_c, eps)
                 N = dW.shape[0]
                 stub = seams.StubBM(dW, U, A, levy=levy)
-                solver = zoo.make_solver(prog, stub, method, h, opts)
+                solver = zoo.make_solver(prog, stub, method, nominal * h, opts)
                 p = float(solver.strong_order)
                 t0 = torch.tensor(t0v, dtype=torch.float64)
                 t1 = t0 + h
@@ -100,8 +103,10 @@ def unit_fn(unit):
                     err = float((y1 - tb).abs().max())
                     if err > 1e-13 * max(1.0, float(tb.abs().max())):
                         out.violation(dict(kind='textbook', cell=name, program=pname),
-                                      f"{name} {pname} h={h}: step differs from the textbook formula by {err}",
-                                      dict(engine='D-c02', cell=name, program=pname, base_point=bp, h=h))
+                                      f"{name} {pname} h={h} (solver dt={nominal}h): step differs from the textbook "
+                                      f"formula by {err}",
+                                      dict(engine='D-c02', cell=name, program=pname, base_point=bp, h=h,
+                                           nominal_dt_over_h=nominal))
             want = zoo.doc_strong_order(method, nt)
             if p != want:
                 out.violation(dict(kind='advertised_order', cell=name),
@@ -109,7 +114,7 @@ def unit_fn(unit):
                               dict(engine='D-c02', cell=name))
             sn = slopes(norms, eps_list)
             sm = slopes(means, eps_list)
-            label = dict(cell=name, program=pname, base_point=bp, p=p, nodes=[n_a, n_b, n_c],
+            label = dict(cell=name, program=pname, base_point=bp, p=p, nodes=[n_a, n_b, n_c], nominal_dt_over_h=nominal,
                          rms_remainder=[float('%.3g' % v) for v in norms], rms_slopes=[None if s is None else round(s, 2) for s in sn],
                          mean_remainder=[float('%.3g' % v) for v in means], mean_slopes=[None if s is None else round(s, 2) for s in sm])
             tail_n = [s for s in sn[-unit['tail']:] if s is not None]
@@ -128,7 +133,7 @@ def unit_fn(unit):
                               f"eps; needs >= {2 * p + 1.5} (expectation must agree to O(h^{p + 1}))",
                               dict(engine='D-c02', **label))
             else:
-                out.keys.add((name, pname, bp))
+                out.keys.add((name, pname, bp, nominal))
             out.sample(label, limit=1)
     return out.pack()
 
